@@ -215,6 +215,16 @@ theorem C18_no_silent_keyword (t : Kwargs.FnTable) (expected : List (String × S
     (∀ p ∈ expected, p ∈ t.verbatim) ∧ (∀ k ∈ t.callKeywords, k ∈ t.scipyParams) :=
   Kwargs.checkFn_sound t expected h
 
+/-- an omitted pass-through keyword means what it means in scipy: for any generated table passing
+    `checkDefaults`, the wrapper's default of every pass-through parameter (outside the declared
+    exceptions) is scipy's default.  `Generated/Kwargs.lean` proves the hypothesis for the current
+    source (`minimizeDefaults_ok` with the one exception `minimize(method="L-BFGS-B")`,
+    `minimizeScalarDefaults_ok` without exception). -/
+theorem C18_defaults (t : Kwargs.FnTable) (allowed : List String)
+    (h : Kwargs.checkDefaults t allowed = true) :
+    ∀ kp ∈ t.verbatim, kp.2 ∉ allowed → t.defaults.lookup kp.2 = t.scipyDefaults.lookup kp.1 :=
+  Kwargs.checkDefaults_sound t allowed h
+
 /-- the jax gradient is requested exactly for scipy's gradient-based solvers, however the method
     name is capitalised (`lower` = Python's `str.lower`, which is also how scipy resolves the name) -/
 theorem C18_gradient_methods (lower : String → String) (method : String)
